@@ -61,10 +61,7 @@ func referenceRun(backend string, h *CrashHistory) (states []*m.DB, problems []F
 			states = append(states, model) // refused: no effect
 			continue
 		}
-		problems = append(problems, fs...)
-		if res.Err != nil {
-			problems = append(problems, Finding{Tag: "setup", Msg: fmt.Sprintf("history operation %s failed in the reference run: %v", opSkel(o), res.Err)})
-		}
+		problems = append(problems, fs...) // an error the reference model allows (and then no effect) is a legal step of a history
 		model = next
 		states = append(states, model)
 	}
